@@ -184,6 +184,14 @@ func c02(tier string) []*explore.Scenario {
 			out = append(out, long)
 		}
 	}
+	// the same through a demultiplexer, with handlers that keep up and handlers that start late
+	for _, c := range []streamCase{{"CStream", "sendall", "collect", 200, 0, 0}, {"Bidi", "concurrent", "echo", 200, 0, 0}, {"Bidi", "concurrent", "collect", 40, 0, 0},
+		{"SStream", "sendall", "burst", 1, 200, 0}, {"Bidi", "pingpong", "echo", 20, 0, 0}} {
+		for _, cp := range []int{0, 64} {
+			out = append(out, c02ViaDemux(c, cp, false, 0), c02ViaDemux(c, cp, true, 0))
+		}
+	}
+	out = append(out, c02ViaDemux(streamCase{"CStream", "sendall", "collect", 3, 0, 0}, 64, true, 1), c02ViaDemux(streamCase{"Bidi", "concurrent", "echo", 2, 0, 0}, 0, true, 1))
 	for _, mixed := range []bool{false, true} {
 		var many []streamCase
 		for i := 0; i < 32; i++ {
@@ -320,5 +328,38 @@ func checkC02(r *env.Rec, c streamCase) {
 	}
 	if !isPrefix(r.CRecv, r.HSent) {
 		vsched.Fail(fam+"|caller-recv-order", "%s: caller received %v, handler sent %v", r.Tag, r.CRecv, r.HSent)
+	}
+}
+
+// c02ViaDemux: one stream through client - Demux(by source) - Serve. slowStart: the handler starts
+// working only when the caller cannot make progress any more (every queue on the path is full:
+// the caller has out-run the handler as far as the path allows).
+func c02ViaDemux(c streamCase, capn int, slowStart bool, bound int) *explore.Scenario {
+	return &explore.Scenario{
+		Name:   fmt.Sprintf("C02/via-demux/cap=%d/slowstart=%v/%s", capn, slowStart, c.name()),
+		Family: "C02/stream", Prop: "C02", Bound: bound, SelectCost: true,
+		Run: func() {
+			w := env.NewWorld()
+			env.MsgSize = 0
+			d := env.NewDirect(w, env.DirectOpts{Pipe: env.PipeOpts{Cap: capn}, Demux: true})
+			vsched.Settle()
+			vsched.Explore(true)
+			r := w.Rec("s0", c.kind)
+			gate := make(chan struct{})
+			h := c.handler()
+			w.Handlers[r.Tag] = func(r *env.Rec, ss grpc.ServerStream) error {
+				if slowStart {
+					<-gate
+				}
+				return h(r, ss)
+			}
+			vsched.GoNamed("caller-"+r.Tag, func() { c.runCaller(w, d.CC, context.Background(), r) })
+			vsched.Quiesce()
+			close(gate)
+			vsched.Quiesce()
+			vsched.Obs("%s", r.Summary())
+			checkC02(r, c)
+			finishDirect(d, w, true)
+		},
 	}
 }
